@@ -493,10 +493,67 @@ def hand_programs():
     return out
 
 
+def window_factor(fid, name, dep_fid, dep_levels, width, start):
+    """Window(width, stride 1, start) over one factor: level 'same' accepts the windows whose first and last
+    elements agree, an else level the rest."""
+    import itertools
+    same = [[list(w)] for w in itertools.product(dep_levels, repeat=width) if w[0] == w[-1]]
+    return {"id": fid, "name": name, "kind": "derived",
+            "window": {"type": "window", "deps": [dep_fid], "width": width, "stride": 1, "start": start},
+            "levels": [{"name": "same", "table": same, "weight": 1}, {"name": "diff", "else": True, "weight": 1}]}
+
+
+def alignment_family():
+    """Deterministic family (runs in every tier): MultiCrossBlock / Merge / Nest with two or three crossings of
+    different sizes under POST_PREAMBLE and, for contrast, PARALLEL_START, where the latest-starting derived
+    factor (Transition; Window of width 2 / 3; Window with explicit start 2) sits in a *smaller* crossing, in
+    both crossing orders, modes repeat and weight.  Under POST_PREAMBLE every crossing starts after the longest
+    preamble and is stretched to the largest crossing size: trials = max preamble + max size."""
+    A = F(0, "A", ["a0", "a1"])
+    B = F(1, "B", ["b0", "b1", "b2"])
+    C = F(2, "C", ["c0", "c1"])
+    al_levels = ["a0", "a1"]
+    deriveds = [("transition", transition(3, "dA", 0, al_levels)),
+                ("window2", window_factor(3, "dA", 0, al_levels, 2, 1)),
+                ("window3", window_factor(3, "dA", 0, al_levels, 3, 2)),
+                ("window2-start2", window_factor(3, "dA", 0, al_levels, 2, 2))]
+    out = []
+    for dname, d in deriveds:
+        factors = [A, B, C, d]
+        design = [0, 1, 2, 3]
+        structures = [("big-first", [[1, 2], [3]]), ("small-first", [[3], [1, 2]]), ("small-first-AB", [[3, 2], [0, 1]]),
+                      ("three", [[0, 1], [3], [2]])]
+        for sname, crossings in structures:
+            for mode in ("repeat", "weight"):
+                for al in ("post preamble", "parallel start"):
+                    tag = "al-%s-%s-%s-%s" % (dname, sname, mode, al.split()[0])
+                    out.append((tag + "-multi", {
+                        "factors": factors, "constraints": [],
+                        "blocks": [{"id": 0, "kind": "MultiCrossBlock", "design": design, "crossings": crossings, "constraints": [],
+                                    "rcc": True, "mode": mode, "alignment": al}], "main": 0}))
+                    leaves = [{"id": i, "kind": "MultiCrossBlock", "design": design, "crossings": [c], "constraints": [], "rcc": True,
+                               "mode": "weight", "alignment": al} for i, c in enumerate(crossings)]
+                    out.append((tag + "-merge", {
+                        "factors": factors, "constraints": [],
+                        "blocks": leaves + [{"id": len(leaves), "kind": "Merge", "blocks": [b["id"] for b in leaves], "constraints": [],
+                                             "mode": mode, "alignment": al}], "main": len(leaves)}))
+        for al in ("post preamble", "parallel start"):
+            for crossings in ([[0, 1], [3]], [[3], [0, 1]]):
+                out.append(("al-%s-nest-%s" % (dname, al.split()[0]), {
+                    "factors": factors, "constraints": [],
+                    "blocks": [{"id": 0, "kind": "MultiCrossBlock", "design": [2], "crossings": [[2]], "constraints": [], "rcc": True,
+                                "mode": "weight", "alignment": al},
+                               {"id": 1, "kind": "MultiCrossBlock", "design": [0, 1, 3], "crossings": crossings, "constraints": [],
+                                "rcc": True, "mode": "repeat", "alignment": al},
+                               {"id": 2, "kind": "Nest", "outer": 0, "inner": 1, "constraints": [], "alignment": al}], "main": 2}))
+    return out
+
+
 def gen_programs(ctx, n):
     from props.c14 import nest_complex
     rng = ctx.rng
-    out = hand_programs() + [(tag, p) for tag, p in gen_design.corpus()]
+    out = hand_programs() + alignment_family() + [(tag, p) for tag, p in gen_design.corpus()]
+    n += len(out)              # n generated programs on top of the fixed ones
     shapes = ["cross", "multi", "repeat", "merge", "nest", "cross", "repeat", "multi"]
     i = 0
     while len(out) < n:
@@ -585,11 +642,12 @@ def length_check(program, strategies, n=2, timeout=6):
 # --------------------------------------------------------------------------- run / replay
 
 def run(ctx, res):
-    n = 150 if ctx.quick else 700
+    n = 120 if ctx.quick else 650
     nlen = 36 if ctx.quick else 140
     progs = gen_programs(ctx, n)
     lstep = max(1, len(progs) // nlen)
-    res.rule = ("%d programs: gen_design.gen_program (cross/multi/repeat/merge/nest, derived factors within/transition/window, all "
+    res.rule = ("%d generated programs (+ a deterministic family of 144 MultiCrossBlock / Merge / Nest programs with crossings of "
+                "different sizes and preambles under POST_PREAMBLE / PARALLEL_START): gen_design.gen_program (cross/multi/repeat/merge/nest, derived factors within/transition/window, all "
                 "constraint kinds, weights), c14.nest_complex, a structural family (Nest in Nest, Merge of 1-3 blocks with alignments, "
                 "Repeat of MultiCrossBlock/Merge/Repeat, MinimumTrials at every level with Pin/AtLeastKInARow, empty crossings, crossed "
                 "transitions under Nest/Repeat) and the corpus; every block of every program; non-trivial = a block whose trial count "
